@@ -1,6 +1,6 @@
 (** Non-vacuity of the C04 theorems and concrete runs of the model. *)
 From Coq Require Import NArith List Lia Bool.
-From FF Require Import Lib.Word Gen.Consts_mm_vmm Vmm.Pt Vmm.PtArith Vmm.PtTree Vmm.PtMap Vmm.PtOps Vmm.PtTheorems Vmm.PtInit Vmm.PtPdt Vmm.PtTemp.
+From FF Require Import Lib.Word Gen.Consts_mm_vmm Vmm.Pt Vmm.PtArith Vmm.PtTree Vmm.PtMap Vmm.PtOps Vmm.PtTheorems Vmm.PtInit Vmm.PtPdt Vmm.PtTemp Vmm.PtHist Vmm.PtKernel Vmm.PtRegion Vmm.PtMem.
 Import ListNotations.
 Local Open Scope N_scope.
 
@@ -82,6 +82,40 @@ Example C04_pdt_inactive_run :
                         ent s2 LO 511 = ent boot2 LO 511 /\ length (flog s2) = 5%nat
       | Stray => False
       end
+  | Stray => False
+  end.
+Proof. vm_compute. repeat split; reflexivity. Qed.
+
+(** the boot state refines the empty abstract map: hypotheses of histories and of the region theorems *)
+Example C04_hst_nonvacuous : Hst boot2 LO (own_root LO) (fun _ => None) /\ Forall hdom [HMap 0x1234 0x777 3; HTranslate 0x1234abc; HUnmap 0x1234].
+Proof.
+  split.
+  - split.
+    + apply Inv_init.
+      * reflexivity.
+      * unfold LO. change (2 ^ 40) with 1099511627776. lia.
+      * unfold ofr, LO. cbn. repeat constructor; cbn; intuition discriminate.
+      * intros f Hin Hz. unfold LO in *. cbn in Hin. intuition (subst; try lia).
+    + reflexivity.
+    + intros q Hq. unfold translation.
+      assert (Hz: forall i, i <> 511 -> ent boot2 LO i = 0).
+      { intros i Hi. unfold boot2, init_state, ent. cbn [mem]. rewrite rd_wr, rd_zero, N.eqb_refl.
+        destruct (N.eqb_spec i 511); [congruence | reflexivity]. }
+      rewrite (empty_space boot2 LO Hz q Hq). reflexivity.
+  - repeat constructor; cbn; try (vm_compute; discriminate); try reflexivity; change (2 ^ 40) with 1099511627776; lia.
+Qed.
+
+Example C04_history_run :
+  match hrun [HMap 0x1234 0x777 3; HTranslate 0x1234abc; HUnmap 0x1234; HTranslate 0x1234abc; HMap 0x40000000 5 1] boot2 with
+  | Ok (_, rs) => rs = [(0, 0); (0, 0x777abc); (0, 0); (E_INVALID, 0); (E_ALLOC, 0)]
+  | Stray => False
+  end.
+Proof. vm_compute. reflexivity. Qed.
+
+Example C04_region_run :
+  match Pt.map_region 0x5000 8192 3 boot2 with
+  | Ok (s', err, page) => err = 0 /\ page = 0xffffff7fffffd /\ last s' = vmm_tempMappingAddr - 8192 /\
+                          translation s' LO 0xffffff7fffffd = Some (0x5000, 3) /\ translation s' LO 0xffffff7fffffe = Some (0x5001, 3)
   | Stray => False
   end.
 Proof. vm_compute. repeat split; reflexivity. Qed.
